@@ -10,7 +10,7 @@
    over the definitions of Model/Discrete.v that are extracted and run against /repo
    (Model/DiscreteO.v is a proof device: C12_otree_is_model ties it to Model/Discrete.v).
    law / prob: the finite-distribution semantics of Base/Samp.v. *)
-From EoNV Require Import Prelude Samp Graph Discrete DiscreteP DiscreteO DiscreteOP DeferredP DiscreteLawP FinalSizeP.
+From EoNV Require Import Prelude Samp Graph Discrete DiscreteP DiscreteO DiscreteOP DeferredP DeferredKP DiscreteLawP DiscreteLawUP FinalSizeP PercLawP.
 From Coq Require Import Permutation.
 
 (* ---- the law of the whole run, return_full_data = False ----
@@ -174,6 +174,38 @@ Theorem C12_final_size_reach : forall g tt i0 r0,
 Proof. exact final_size_reach. Qed.
 Print Assumptions C12_final_size_reach.
 
+(* ---- one coin per undirected edge; percolation_based_discrete_SIR ----
+   Keyed coins: if the key kf u v of a contact is (u, v) or (v, u) and lies in the duplicate-free
+   list KEYS, the run never asks two contacts with the same key (u is never susceptible or
+   infectious again after (u, v) was asked), so one coin per key has the law of the run; the
+   table reads the coin of the key.  Any return mode. *)
+Theorem C12_law_keyed : forall g ord tmin tmax full kf KEYS,
+  NoDup (gnodes g) -> (forall u, In u (gnodes g) -> NoDup (gadj g u)) -> (forall k l, Permutation (ord k l) l) ->
+  (forall u v, kf u v = (u, v) \/ kf u v = (v, u)) ->
+  (forall u v, In u (gnodes g) -> In v (gadj g u) -> In (kf u v) KEYS) ->
+  forall p i0 r0o fuel (f : dout -> bool), NoDup KEYS ->
+  prob f (law (basic_discrete_SIR g p ord (Some i0) r0o None tmin tmax full fuel)) ==
+  expect (clamp01 p) KEYS (fun kept =>
+    prob f (law (discrete_SIR g (table_rules (tblk kf kept)) None ord (Some i0) r0o None tmin tmax full fuel))).
+Proof. exact dsir_law_expect_k. Qed.
+Print Assumptions C12_law_keyed.
+
+(* EQUALITY IN LAW of the two simulators (the step cited in Props/C12.v, now proved): on a simple
+   undirected graph, for every event F on the rows, any two iteration orders, return_full_data =
+   False.  (percolation_based_discrete_SIR = percolate_network, then discrete_SIR(H, H.has_edge).)
+   Not covered: return_full_data = True (the node histories agree pathwise, C12_perc_sir_pathwise;
+   their joint law with the random.choice draws is not formalised). *)
+Theorem C12_perc_basic_rows_law : forall g p ord1 ord2 i0 r0o tmin tmax fuel1 fuel2 (F : list row -> bool),
+  wf_inputb g i0 (opt_list r0o) = true -> arcs_nodupb g = true -> sym_graphb g = true ->
+  perm_oracle ord1 -> perm_oracle ord2 ->
+  (length (gnodes g) < fuel1)%nat -> (length (gnodes g) < fuel2)%nat ->
+  prob (fun o => F (so_rows (o_sim o)))
+       (law (basic_discrete_SIR g p ord1 (Some i0) r0o None tmin tmax false fuel1)) ==
+  prob (fun o => F (so_rows (o_sim o)))
+       (law (percolation_based_discrete_SIR g p ord2 (Some i0) r0o None tmin tmax false fuel2)).
+Proof. exact perc_basic_rows_law. Qed.
+Print Assumptions C12_perc_basic_rows_law.
+
 (* ---- non-vacuity ---- *)
 (* a digraph 0 -> 1, 0 -> 2, 1 -> 2, 2 -> 0 and the undirected triangle *)
 Definition dg_adj (u : node) : list node :=
@@ -243,3 +275,14 @@ Example C12law_ex_expect :
   == 10 # 27.
 Proof. vm_compute. reflexivity. Qed.
 Print Assumptions C12law_ex_expect.
+
+(* the triangle is a simple undirected graph; both simulators give "final R = 2" probability 1/4
+   and "final R = 3" probability 1/2 at p = 1/2 *)
+Example C12law_ex_perc :
+  sym_graphb tri = true /\
+  let evr (n : Z) (o : dout) := Z.eqb (rows_final_R (so_rows (o_sim o))) n in
+  let B := law (basic_discrete_SIR tri (1 # 2) lx_ord (Some [0%N]) None None 0 None false 4) in
+  let P := law (percolation_based_discrete_SIR tri (1 # 2) (fun _ l => l) (Some [0%N]) None None 0 None false 4) in
+  prob (evr 2%Z) B == 1 # 4 /\ prob (evr 2%Z) P == 1 # 4 /\ prob (evr 3%Z) B == 1 # 2 /\ prob (evr 3%Z) P == 1 # 2.
+Proof. split; [vm_compute; reflexivity|]. cbv zeta. repeat split; vm_compute; reflexivity. Qed.
+Print Assumptions C12law_ex_perc.
